@@ -1,4 +1,4 @@
-# CrossHair plugin (exec'd by --extra_plugin): two semantics-preserving engine patches
+# CrossHair plugin (exec'd by --extra_plugin): semantics-preserving engine patches
 # that avoid realising symbolic values where CPython defines the result symbolically.
 #   format(i, "") of a symbolic int  ->  str(i)        (CPython: identical)
 #   int(x) of a symbolic float       ->  x.__int__()   (symbolic truncation)
@@ -82,6 +82,28 @@ def _install():
             return set(deep_realize(items))
 
     _PATCH_REGISTRATIONS[set] = _set2
+
+    _orig_dict_get = _PATCH_REGISTRATIONS.get(dict.get)
+
+    def _no_proxy(key, depth=0):
+        if isinstance(key, CrossHairValue):
+            return False
+        if isinstance(key, (tuple, list, frozenset)) and depth < 6:
+            return all(_no_proxy(k, depth + 1) for k in key)
+        return True
+
+    def _dict_get2(self, key, default=None):
+        with NoTracing():
+            native = type(self) is dict and _no_proxy(key)
+        if native:
+            # a key without CrossHair proxies is looked up as CPython does (hash first, then ==).  CrossHair's own
+            # patch turns the dict into an equality-only SimpleDict for every key that is not int/float/str, which
+            # conflates jaqalpaq's NamedQubits that compare equal by name but hash differently (GateMemoizer keys)
+            return dict.get(self, key, default)
+        return _orig_dict_get(self, key, default)
+
+    if _orig_dict_get is not None:
+        _PATCH_REGISTRATIONS[dict.get] = _dict_get2
 
 
 _install()
